@@ -87,6 +87,12 @@ def _gate_requests(tier, seed):
     for al in ([700], [333], [910, 700], [667]):
         reqs.append({"est": "nonparametric", "alphas": al, "dup": False, "extra": [], "fine": True})
     reqs.append({"est": "gaussian", "alphas": [700, 910], "dup": False, "extra": [], "fine": True})
+    # fixed effects in the interval models, several levels in ascending and descending order: each level cuts its own
+    # calibration split, so the completion clause holds for every level whatever was computed before it in the same run
+    # (seeded change C14_J: a split kept on the model and re-used by the following levels when fixed effects are on)
+    for al in ([700, 900], [900, 700], [500, 800, 950], [700]):
+        reqs.append({"est": "nonparametric", "alphas": al, "dup": False, "extra": [24, 40] if al == [700, 900] else [], "fe": True})
+    reqs.append({"est": "gaussian", "alphas": [700, 900], "dup": False, "extra": [], "fe": True})
     # duplicated reporting unit ids
     reqs.append({"est": "nonparametric", "alphas": [700, 900], "dup": True, "extra": [30]})
     reqs.append({"est": "nonparametric", "alphas": [rnd.randint(100, 900)], "dup": True, "extra": []})
